@@ -8,6 +8,7 @@ if [ -n "$(git status --porcelain --untracked-files=no)" ]; then echo "/repo is 
 if ! git apply --check "$patch" 2>/dev/null; then echo "patch does not apply: $patch"; exit 2; fi
 git apply "$patch"
 trap 'cd /repo && git checkout -- . && git clean -fdq src >/dev/null 2>&1' EXIT
+export VERIF_OUT=/dev/shm/rws-mutcheck-out
 for id in "$@"; do
   out=$(/verif/check "$id" --tier quick 2>&1); code=$?
   echo "$id exit=$code $(echo "$out" | grep -E "^$id:|HARNESS-ERROR" | head -2 | cut -c1-200)"
